@@ -247,6 +247,21 @@ Qed.
 Print Assumptions C14_midi_timeline.
 
 (** ---------------------------------------------------------------------------------------------
+    The closed-form variants evaluated by the correspondence harness ARE the models above
+    --------------------------------------------------------------------------------------------- *)
+Theorem C14_fast_variants_agree : forall out inn, rate_ok out -> rate_ok inn ->
+  (forall n, mult_run_x out inn MNew n = mult_run out inn MNew n)
+  /\ (forall n dflt len expected, mult_sparse_ok_x out inn n dflt len expected = mult_sparse_ok out inn n dflt len expected)
+  /\ (forall cb d0 t0 rds counts code, clock_ok_x out inn cb d0 t0 rds counts code = clock_ok out inn cb d0 t0 rds counts code).
+Proof.
+  intros out inn Ho Hi. split; [|split].
+  - intros n. symmetry. apply mult_run_x_eq; try assumption. exact I.
+  - intros. unfold mult_sparse_ok_x, mult_sparse_ok. symmetry. apply run_check_x_eq; try assumption. exact I.
+  - intros. unfold clock_ok_x, clock_ok. rewrite (clock_run_x_eq out inn Ho Hi). reflexivity.
+Qed.
+Print Assumptions C14_fast_variants_agree.
+
+(** ---------------------------------------------------------------------------------------------
     Non-vacuity: concrete inputs meeting the hypotheses, evaluated by the model
     --------------------------------------------------------------------------------------------- *)
 Example C14_ratio_nonvacuous :
